@@ -82,7 +82,7 @@ func (c *vxContentOf[K, V]) count() int {
 // vxArbMapOf: like vxArbMap for MapOf. slots limits how many of the 5 slots
 // per bucket may be occupied symbolically (the rest are empty) to keep small
 // instances small; slots=5 is the full bucket.
-func vxArbMapOf[K comparable, V comparable](tableLen, chain, minLen, slots int, hasher func(K, uint64) uint64, kgen func(string) K, vgen func(string) V) (*MapOf[K, V], *vxContentOf[K, V]) {
+func vxArbMapOf[K comparable, V comparable](tableLen, chain, minLen, slots0, slots1 int, hasher func(K, uint64) uint64, kgen func(string) K, vgen func(string) V) (*MapOf[K, V], *vxContentOf[K, V]) {
 	m := &MapOf[K, V]{}
 	m.resizeCond = *sync.NewCond(&m.resizeMu)
 	m.hasher = hasher
@@ -99,8 +99,16 @@ func vxArbMapOf[K comparable, V comparable](tableLen, chain, minLen, slots int, 
 		b := &t.buckets[r]
 		for ci := 0; ci < chain; ci++ {
 			meta := defaultMeta
-			for s := 0; s < slots; s++ {
-				if VxBool("occ") {
+			slots := slots0
+			if r > 0 {
+				slots = slots1
+			}
+			nslots, forced := slots, false
+			if slots < 0 {
+				nslots, forced = -slots, true // concretely occupied slots
+			}
+			for s := 0; s < nslots; s++ {
+				if forced || VxBool("occ") {
 					e := new(entryOf[K, V])
 					e.key = kgen("pk")
 					e.value = vgen("pv")
@@ -292,8 +300,8 @@ func vxIntVal(name string) int { return VxInt(name) }
 func vxStrKey(name string) string { return VxStr(name) }
 
 // VxH_MapOfII_step: MapOf[int,int], one operation from an arbitrary valid state.
-func VxH_MapOfII_step(op, tableLen, chain, minLen, slots int) {
-	m, c := vxArbMapOf[int, int](tableLen, chain, minLen, slots, VxIntHasher, vxIntKey, vxIntVal)
+func VxH_MapOfII_step(op, tableLen, chain, minLen, slots0, slots1 int) {
+	m, c := vxArbMapOf[int, int](tableLen, chain, minLen, slots0, slots1, VxIntHasher, vxIntKey, vxIntVal)
 	k := VxInt("k")
 	nv := VxInt("nv")
 	del := VxBool("del")
@@ -304,8 +312,8 @@ func VxH_MapOfII_step(op, tableLen, chain, minLen, slots int) {
 }
 
 // VxH_MapOfSA_step: MapOf[string,any].
-func VxH_MapOfSA_step(op, tableLen, chain, minLen, slots int) {
-	m, c := vxArbMapOf[string, any](tableLen, chain, minLen, slots, VxStrHasher, vxStrKey, VxArbVal)
+func VxH_MapOfSA_step(op, tableLen, chain, minLen, slots0, slots1 int) {
+	m, c := vxArbMapOf[string, any](tableLen, chain, minLen, slots0, slots1, VxStrHasher, vxStrKey, VxArbVal)
 	k := VxStr("k")
 	nv := VxArbVal("nv")
 	del := VxBool("del")
